@@ -703,6 +703,17 @@ def fam_c09():
         add("return-then-deferred-store-toplevel-" + nm, rpre + [Defer(ACall(Fn([], [store, P(50), Ret(I(0))]))), P(40), Ret(place)])
         add("return-then-deferred-store-five-" + nm, rpre + [FnStmt("pop", ["a", "b", "c", "d", "e"], [Defer(ACall(Fn([], [store, Ret(I(0))]))), Ret(place)]), P(Call("pop", I(1), I(2), I(3), I(4), I(5))), P(place), Ret(I(0))])
         add("return-then-deferred-store-named-" + nm, rpre + [FnStmt("st", [], [store, Ret(I(0))]), FnStmt("pop", [], [Defer(Call("st")), Ret(place)]), P(Call("pop")), P(place), Ret(I(0))])
+    # a defer statement inside a block that is not a function body (module, try / catch / finally, loop, branch, switch case): the call belongs to the INVOCATION
+    # the block is part of and runs when that invocation ends
+    blocks = {"module": lambda b: [Module("md", b)], "try": lambda b: [Try(b, "e", [P(60)])], "catch": lambda b: [Try([Throw(S("t"))], "e", b)], "finally": lambda b: [Try([P(58)], "e", [P(60)], f=b)],
+              "forin": lambda b: [ForIn("i", L(I(1), I(2)), b)], "cfor": lambda b: [CFor(Let("i", I(0)), Bin("<", Id("i"), I(2)), Inc("i"), b)], "if": lambda b: [If(B(True), b)], "else": lambda b: [If(B(False), [P(59)], els=b)],
+              "switch": lambda b: [Switch(I(1), [([I(1)], b)])], "default": lambda b: [Switch(I(1), [([I(0)], [P(59)])], d=b)], "module-in-module": lambda b: [Module("mo", [Module("mi", b)])]}
+    for bn, mk in blocks.items():
+        inner = [Defer(Call("p", I(71))), P(72)]
+        add("defer-in-%s-top" % bn, mk(inner) + [P(73), Ret(I(0))])
+        add("defer-in-%s-fn" % bn, [FnStmt("f", [], [Defer(Call("p", I(70)))] + mk(inner) + [P(73), Ret(I(4))]), P(Call("f")), P(74), Ret(I(0))])
+        add("defer-in-%s-fn-throw" % bn, [FnStmt("f", [], mk(inner + [Throw(S("x"))]) + [P(73), Ret(I(4))]), Try([P(Call("f"))], "e2", [P(61)]), P(74), Ret(I(0))])
+        add("defer-in-%s-fn-noreturn" % bn, [FnStmt("f", [], mk(inner) + [P(73)]), E(Call("f")), P(74), Ret(I(0))])
     # an error raised by the HEADER of a construct (condition, subject, case value, iterable, init / post of a C-style loop): none of the construct's blocks runs --
     # not the else block, not a later case, not the default -- and nothing after the construct either
     fails = {"rterr": Id("zz"), "thr": Call("boom"), "idx": Idx(L(I(1)), I(5)), "thrarg": Bin("+", PV(30, I(1)), Call("boom"))}
